@@ -488,9 +488,73 @@ fn unprivileged_slice(ctx: &mut Ctx) {
     crate::sandbox::clear_dir(&sbx);
 }
 
+/// Names that are not valid UTF-8: -delete removes the entry it was evaluated on — the bytes as they
+/// are — and nothing else: look-alikes named with the lossy rendering (U+FFFD), which the expression
+/// does not match, stay.
+fn undecodable_names_slice(ctx: &mut Ctx) {
+    use std::os::unix::ffi::OsStrExt;
+    let base = ctx.sbx.join("du");
+    let os = |b: &[u8]| std::ffi::OsStr::from_bytes(b).to_os_string();
+    for expr in [vec!["-empty", "-delete"], vec!["-mindepth", "1", "(", "-empty", "-o", "-false", ")", "-delete"], vec!["-depth", "-empty", "-delete"]] {
+        let _ = sandbox::force_remove(&base);
+        std::fs::create_dir_all(base.join("r").join(os(b"dir\x80"))).unwrap();
+        std::fs::write(base.join("r").join(os(b"dir\x80")).join("inner"), b"").unwrap();
+        std::fs::write(base.join("r").join(os(b"bad\xff")), b"").unwrap();
+        std::fs::create_dir(base.join("r").join(os(b"tr\xc3"))).unwrap();
+        std::os::unix::fs::symlink(os(b"x\xff"), base.join("r/lnk")).unwrap();
+        // look-alikes: not empty, so not matched
+        std::fs::write(base.join("r/bad\u{fffd}"), b"keep").unwrap();
+        std::fs::create_dir(base.join("r/dir\u{fffd}")).unwrap();
+        std::fs::write(base.join("r/dir\u{fffd}/inner"), b"keep").unwrap();
+        std::fs::create_dir(base.join("r/tr\u{fffd}")).unwrap();
+        std::fs::write(base.join("r/tr\u{fffd}/k"), b"keep").unwrap();
+        std::env::set_current_dir(&base).unwrap();
+        let mut args: Vec<&str> = vec!["r"];
+        args.extend(expr.iter().copied());
+        let got = run_find(&args);
+        ctx.rep.evaluations += 1;
+        ctx.rep.nontrivial += 1;
+        ctx.rep.count("undecodable_name_runs", 1);
+        let mut left: Vec<Vec<u8>> = vec![];
+        fn rec(p: &std::path::Path, rel: Vec<u8>, out: &mut Vec<Vec<u8>>) {
+            if let Ok(rd) = std::fs::read_dir(p) {
+                for e in rd.flatten() {
+                    let mut r = rel.clone();
+                    if !r.is_empty() {
+                        r.push(b'/');
+                    }
+                    r.extend_from_slice(e.file_name().as_bytes());
+                    out.push(r.clone());
+                    if e.file_type().is_ok_and(|t| t.is_dir()) {
+                        rec(&e.path(), r, out);
+                    }
+                }
+            }
+        }
+        rec(&base.join("r"), vec![], &mut left);
+        left.sort();
+        let mut want: Vec<Vec<u8>> = ["bad\u{fffd}", "dir\u{fffd}", "dir\u{fffd}/inner", "tr\u{fffd}", "tr\u{fffd}/k"].iter().map(|s| s.as_bytes().to_vec()).collect();
+        // (a symbolic link is never -empty)
+        want.push(b"lnk".to_vec());
+        want.sort();
+        if left != want || got.code != Ok(0) {
+            ctx.rep.violation(
+                "C10 names that are not valid UTF-8: -delete does not remove exactly the entries it was evaluated on",
+                format!("find {:?}: left behind {:?}, expected {:?}; status {:?} stderr {:?}", args, left.iter().map(|b| String::from_utf8_lossy(b).to_string()).collect::<Vec<_>>(), want.iter().map(|b| String::from_utf8_lossy(b).to_string()).collect::<Vec<_>>(), got.code, String::from_utf8_lossy(&got.err)),
+                json!({"prop":"C10","forest":"","undecodable":true}),
+            );
+        }
+    }
+    std::env::set_current_dir(&ctx.sbx).unwrap();
+    let _ = sandbox::force_remove(&base);
+}
+
 fn run(ctx: &mut Ctx) {
     if ctx.shard == 7 % ctx.nshards {
         unprivileged_slice(ctx);
+    }
+    if ctx.shard == 6 % ctx.nshards {
+        undecodable_names_slice(ctx);
     }
     let labels = [Leaf::File, Leaf::EmptyDir, Leaf::LnFile, Leaf::LnDir, Leaf::LnDangling];
     for n in 0..=max_nodes(ctx.tier) {
@@ -549,6 +613,10 @@ fn run(ctx: &mut Ctx) {
 
 fn replay(case: &Value, ctx: &mut Ctx) -> Option<String> {
     let forest = tree::decode_forest(case["forest"].as_str()?)?;
+    if case["undecodable"] == true {
+        undecodable_names_slice(ctx);
+        return ctx.rep.violations.keys().next().cloned();
+    }
     if case["unprivileged"] == true {
         unprivileged_slice(ctx);
         return ctx.rep.violations.keys().next().cloned();
